@@ -68,7 +68,8 @@ def tree_tie(ctx, docs, cfgs, exempt=("block_error",)):
             meta.append((c, doc, html, toks))
     outs = d.batch(reqs)
     n = 0
-    stats = {"trees": 0, "refined": 0, "with_toc": 0, "exempt": 0}
+    stats = {"trees": 0, "refined": 0, "with_toc": 0, "exempt": 0, "tag_hypotheses_hold": 0, "well_tagged": 0, "striptags_agrees_with_scanner": 0}
+    from mistune.util import striptags
     for (c, doc, html, toks), got in zip(meta, outs):
         n += 1
         stats["trees"] += 1
@@ -76,6 +77,7 @@ def tree_tie(ctx, docs, cfgs, exempt=("block_error",)):
             ctx.broken.append("template tree tie: the model could not read the token list of %r under %s (%s)" % (doc[:80], c["name"], got[:60]))
             continue
         flags, _, body = got[3:].partition(" ")
+        body, _, stripped = body.partition(" ")
         g = dec(body)
         esc = c.get("escape", True)
         ex = has_type(toks, set(exempt))
@@ -88,6 +90,19 @@ def tree_tie(ctx, docs, cfgs, exempt=("block_error",)):
         if ex:
             stats["exempt"] += 1
             continue
+        if esc and flags[3] == "W" and not has_type(toks, {"toc"}):
+            # the tested hypothesis `StripAgrees` of render_tagged: on a well-tagged string the regenerated regex (model side) and
+            # the real striptags() remove exactly what the scanner calls tags
+            stats["well_tagged"] += 1
+            if flags[4] != "A" or striptags(html) != dec(stripped):
+                if sum(1 for b in ctx.broken if b.startswith("StripAgrees")) < 3:
+                    ctx.broken.append("StripAgrees (hypothesis of render_tagged) fails: striptags(%r) = %r, the tag scanner keeps %r" % (html[:200], striptags(html)[:120], dec(stripped)[:120]))
+            else:
+                stats["striptags_agrees_with_scanner"] += 1
+        if esc and flags[0] == "R" and flags[2] == "T":
+            stats["tag_hypotheses_hold"] += 1
+            if flags[3] != "W":
+                ctx.broken.append("tag theorem contradicted?! refinedOk and tagTreeOk hold but the model output is not well tagged for %r" % doc[:120])
         if esc:
             if flags[0] == "R":
                 stats["refined"] += 1
